@@ -670,7 +670,9 @@ func (e *Engine) VerifyFunc(c *Contract, maxPaths int) *FuncResult {
 					x.unsup = append(x.unsup, string(os))
 					return
 				}
-				panic(r)
+				// the contract no longer fits the code it is attached to (e.g. a spec map operation on a variable that
+				// has become an array): the function leaves the subset; its obligations are NOT discharged
+				x.unsup = append(x.unsup, fmt.Sprintf("the contract no longer fits the code (generator error: %v)", r))
 			}
 		}()
 		x.findLoops()
